@@ -1843,6 +1843,9 @@ impl Model {
             self.push_e(se, Exp::AtLeast1 { c, line: format!("482 {}", chan) });
         }
         let head = format!(":{} MODE {}", src, chan);
+        if masks_touched {
+            self.touched.push((chan.to_string(), P14 | P07 | P10));
+        }
         se.cur = P08 | if masks_touched { P14 } else { 0 };
         let members: Vec<String> = self.chans[chan].members.keys().cloned().collect();
         if !required.is_empty() || !optional.is_empty() {
